@@ -5,6 +5,7 @@
   construct is unaffected (C02, C05).
 -/
 import TwProofs.Lemmas.TextVars
+import TwProofs.Lemmas.LexStrPlain
 namespace Tw
 open Lx
 
@@ -342,6 +343,7 @@ inductive WItem where
   | text (segs : List Seg)
   | comment (cm : Bytes)
   | print (g1 n g2 : Bytes)
+  | lit (g1 : Bytes) (q : Byte) (c g2 : Bytes)
   | ifelse (g1 n g2 : Bytes) (th : List Seg) (el : Option (List Seg))
 
 def elseSrc : Option (List Seg) → Bytes
@@ -352,6 +354,7 @@ def WItem.src : WItem → Bytes
   | .text segs => segsSrc segs
   | .comment cm => [123, 123, 45, 45] ++ cm ++ [45, 45, 125, 125]
   | .print g1 n g2 => [123, 123] ++ g1 ++ n ++ g2 ++ [125, 125]
+  | .lit g1 q c g2 => [123, 123] ++ g1 ++ (q :: (c ++ [q])) ++ g2 ++ [125, 125]
   | .ifelse g1 n g2 th el => kwIf ++ ([40] ++ g1 ++ n ++ g2 ++ [41] ++ (segsSrc th ++ (elseSrc el ++ kwEnd)))
 
 def witemsSrc : List WItem → Bytes
@@ -368,6 +371,7 @@ def wkeys : List WItem → List (TT × Bytes)
   | .text segs :: r => (.HTML, segsLit segs) :: wkeys r
   | .comment _ :: r => wkeys r
   | .print _ n _ :: r => (.LBRACES, [123, 123]) :: (.IDENT, n) :: (.RBRACES, [125, 125]) :: wkeys r
+  | .lit _ _ c _ :: r => (.LBRACES, [123, 123]) :: (.STR, c) :: (.RBRACES, [125, 125]) :: wkeys r
   | .ifelse _ n _ th el :: r =>
     (.IF, kwIf) :: (.LPAREN, [40]) :: (.IDENT, n) :: (.RPAREN, [41]) :: (.HTML, segsLit th) :: (elseKeys el ++ ((.END, kwEnd) :: wkeys r))
 
@@ -387,6 +391,7 @@ def WItemsOK : List WItem → Prop
   | .comment cm :: r => commentScan (cm ++ [45, 45, 125, 125] ++ witemsSrc r) = cm.length ∧ WItemsOK r
   | .text segs :: r => startsRun segs ∧ SegsOK segs (witemsSrc r) ∧ afterRunW segs r ∧ WItemsOK r
   | .print g1 n g2 :: r => allWs g1 ∧ allWs g2 ∧ isName n ∧ WItemsOK r
+  | .lit g1 q c g2 :: r => allWs g1 ∧ allWs g2 ∧ (q = 34 ∨ q = 39) ∧ PlainStr q c ∧ WItemsOK r
   | .ifelse g1 n g2 th el :: r =>
     allWs g1 ∧ allWs g2 ∧ isName n ∧ startsRun th ∧ SegsOK th (elseSrc el ++ kwEnd ++ witemsSrc r) ∧ lastOr (segsSrc th) 0 ≠ 92 ∧
       ElseOK (witemsSrc r) el ∧ WItemsOK r
@@ -396,6 +401,7 @@ instance (segs : List Seg) : (r : List WItem) → Decidable (afterRunW segs r)
   | .text _ :: _ => isFalse (by simp [afterRunW])
   | .comment _ :: _ => by unfold afterRunW; exact inferInstance
   | .print _ _ _ :: _ => by unfold afterRunW; exact inferInstance
+  | .lit _ _ _ _ :: _ => by unfold afterRunW; exact inferInstance
   | .ifelse _ _ _ _ _ :: _ => by unfold afterRunW; exact inferInstance
 
 instance (tl : Bytes) : (el : Option (List Seg)) → Decidable (ElseOK tl el)
@@ -413,6 +419,9 @@ instance : (items : List WItem) → Decidable (WItemsOK items)
   | .print g1 n g2 :: r =>
     have : Decidable (WItemsOK r) := instDecidableWItemsOK r
     by unfold WItemsOK; exact inferInstance
+  | .lit g1 q c g2 :: r =>
+    have : Decidable (WItemsOK r) := instDecidableWItemsOK r
+    by unfold WItemsOK; exact inferInstance
   | .ifelse g1 n g2 th el :: r =>
     have : Decidable (WItemsOK r) := instDecidableWItemsOK r
     by unfold WItemsOK; exact inferInstance
@@ -425,6 +434,7 @@ def PrevOK (s : Lx) : List WItem → Prop
 def wfuel : List WItem → Nat
   | [] => 0
   | .print _ _ _ :: r => 3 + wfuel r
+  | .lit _ _ _ _ :: r => 3 + wfuel r
   | .ifelse _ _ _ _ _ :: r => 8 + wfuel r
   | _ :: r => 1 + wfuel r
 
@@ -482,6 +492,7 @@ theorem stops_witems : ∀ (r : List WItem), (∀ segs r', r = .text segs :: r' 
   | .text segs :: r', h => (h segs r' rfl).elim
   | .comment cm :: r', _ => Or.inr (Or.inl ⟨[45, 45] ++ cm ++ [45, 45, 125, 125] ++ witemsSrc r', by simp [witemsSrc, WItem.src]⟩)
   | .print g1 n g2 :: r', _ => Or.inr (Or.inl ⟨g1 ++ n ++ g2 ++ [125, 125] ++ witemsSrc r', by simp [witemsSrc, WItem.src]⟩)
+  | .lit g1 q c g2 :: r', _ => Or.inr (Or.inl ⟨g1 ++ (q :: (c ++ [q])) ++ g2 ++ [125, 125] ++ witemsSrc r', by simp [witemsSrc, WItem.src]⟩)
   | .ifelse g1 n g2 th el :: r', _ => by
     have := stops_kw kwIf ([40] ++ g1 ++ n ++ g2 ++ [41] ++ (segsSrc th ++ (elseSrc el ++ kwEnd)) ++ witemsSrc r') rfl (by decide) (by decide) (by decide)
     simpa [witemsSrc, WItem.src, List.append_assoc] using this
@@ -504,6 +515,7 @@ theorem afterRunW_stops (segs : List Seg) (r : List WItem) (h : afterRunW segs r
     | text _ => exact absurd h (by simp [afterRunW])
     | comment cm => exact ⟨stops_witems _ (fun _ _ e => by cases e), fun _ => h⟩
     | print g1 n g2 => exact ⟨stops_witems _ (fun _ _ e => by cases e), fun _ => h⟩
+    | lit g1 q c g2 => exact ⟨stops_witems _ (fun _ _ e => by cases e), fun _ => h⟩
     | ifelse g1 n g2 th el => exact ⟨stops_witems _ (fun _ _ e => by cases e), fun _ => h⟩
 
 theorem prevOK_of (s : Lx) (r : List WItem) (h : s.prev ≠ 92) : PrevOK s r := by
@@ -562,6 +574,16 @@ theorem lexAll_witems : ∀ (items : List WItem), WItemsOK items → ∀ (s : Lx
     obtain ⟨hg1, hg2, hn, hokr⟩ := hok
     obtain ⟨g, rfl⟩ : ∃ g, fuel = 3 + g := ⟨fuel - 3, by simp [wfuel] at hf; omega⟩
     obtain ⟨t1, t2, t3, s3, hrun, k1, k2, k3, r3, h3, b3, p3, pv3, d3, pa3⟩ := lex_print s g1 n g2 (witemsSrc r) hh hb hg1 hg2 hn
+      (by rw [hr]; simp [witemsSrc, WItem.src])
+    obtain ⟨toks, e, sf, hl, hm, he, hhf, hpf⟩ := lexAll_witems r hokr s3 g r3 h3 (by rw [p3]; exact hp) b3
+      (by rw [pa3]; exact hpa) (by rw [d3]; exact hd) (prevOK_of s3 r (by rw [pv3]; decide)) (by simp [wfuel] at hf; omega)
+    have := lexAll_run_forward hrun g (toks ++ [e], sf) hl
+    refine ⟨t1 :: t2 :: t3 :: toks, e, sf, ?_, by simp [wkeys, k1, k2, k3, hm], he, hhf, hpf⟩
+    simpa using this
+  | .lit g1 q c g2 :: r, hok, s, fuel, hr, hh, hp, hb, hpa, hd, _, hf => by
+    obtain ⟨hg1, hg2, hq, hpl, hokr⟩ := hok
+    obtain ⟨g, rfl⟩ : ∃ g, fuel = 3 + g := ⟨fuel - 3, by simp [wfuel] at hf; omega⟩
+    obtain ⟨t1, t2, t3, s3, hrun, k1, k2, k3, r3, h3, b3, p3, pv3, d3, pa3⟩ := lex_lit s g1 q c g2 (witemsSrc r) hh hb hg1 hg2 hq hpl
       (by rw [hr]; simp [witemsSrc, WItem.src])
     obtain ⟨toks, e, sf, hl, hm, he, hhf, hpf⟩ := lexAll_witems r hokr s3 g r3 h3 (by rw [p3]; exact hp) b3
       (by rw [pa3]; exact hpa) (by rw [d3]; exact hd) (prevOK_of s3 r (by rw [pv3]; decide)) (by simp [wfuel] at hf; omega)
@@ -644,12 +666,14 @@ theorem lexAll_witems : ∀ (items : List WItem), WItemsOK items → ∀ (s : Lx
 inductive WSpec where
   | text (t : Bytes)
   | hole (n : Bytes)
+  | slit (v : Bytes)
   | cond (n : Bytes) (th : Bytes) (el : Option Bytes)
   deriving DecidableEq
 
 def specOf : Stmt → Option WSpec
   | .html t => some (.text t.lit)
   | .expr _ (.ident _ n) => some (.hole n)
+  | .expr _ (.str _ v) => some (.slit v)
   | .ifS _ (.ident _ n) [.html t] [] none => some (.cond n t.lit none)
   | .ifS _ (.ident _ n) [.html t] [] (some [.html t2]) => some (.cond n t.lit (some t2.lit))
   | _ => none
@@ -659,6 +683,7 @@ def wspec : List WItem → List WSpec
   | .text segs :: r => .text (segsLit segs) :: wspec r
   | .comment _ :: r => wspec r
   | .print _ n _ :: r => .hole n :: wspec r
+  | .lit _ _ c _ :: r => .slit c :: wspec r
   | .ifelse _ n _ th el :: r => .cond n (segsLit th) (el.map segsLit) :: wspec r
 
 theorem wkeys_clean : ∀ (items : List WItem) (x : TT × Bytes), x ∈ wkeys items → x.1 ≠ .ILLEGAL ∧ x.1 ≠ .EOF
@@ -670,6 +695,13 @@ theorem wkeys_clean : ∀ (items : List WItem) (x : TT × Bytes), x ∈ wkeys it
     · exact wkeys_clean r x h
   | .comment _ :: r, x, h => wkeys_clean r x (by simpa [wkeys] using h)
   | .print _ _ _ :: r, x, h => by
+    simp only [wkeys, List.mem_cons] at h
+    rcases h with h | h | h | h
+    · rw [h]; exact ⟨by simp, by simp⟩
+    · rw [h]; exact ⟨by simp, by simp⟩
+    · rw [h]; exact ⟨by simp, by simp⟩
+    · exact wkeys_clean r x h
+  | .lit _ _ _ _ :: r, x, h => by
     simp only [wkeys, List.mem_cons] at h
     rcases h with h | h | h | h
     · rw [h]; exact ⟨by simp, by simp⟩
@@ -991,6 +1023,85 @@ theorem parseLoop_witems : ∀ (items : List WItem) (toks : List Token) (e : Tok
           simp only [c0, Bool.false_eq_true, if_false, hst, i3, Stmt.isBad, nx3]
           rw [h1]
           simp
+  | .lit g1 q c g2 :: r, toks, e, acc, f, hk, he, hf => by
+    cases toks with
+    | nil => simp [wkeys] at hk
+    | cons t1 rest1 =>
+      cases rest1 with
+      | nil => simp [wkeys] at hk
+      | cons t2 rest2 =>
+        cases rest2 with
+        | nil => simp [wkeys] at hk
+        | cons t3 rest =>
+          simp only [wkeys, List.map_cons, List.cons.injEq] at hk
+          obtain ⟨hk1, hk2, hk3, hkr⟩ := hk
+          have ty1 : t1.ty = .LBRACES := congrArg Prod.fst hk1
+          have ty2 : t2.ty = .STR := congrArg Prod.fst hk2
+          have lit2 : t2.lit = c := congrArg Prod.snd hk2
+          have ty3 : t3.ty = .RBRACES := congrArg Prod.fst hk3
+          obtain ⟨g, rfl⟩ : ∃ g, f = g + 1 + 1 + 1 + 1 := ⟨f - 4, by simp [wspec] at hf; omega⟩
+          have hnill : ∀ x ∈ rest ++ [e], x.ty ≠ .ILLEGAL := by
+            intro x hx
+            rcases List.mem_append.mp hx with h | h
+            · have : key x ∈ wkeys r := by rw [← hkr]; exact List.mem_map_of_mem h
+              exact (wkeys_clean r _ this).1
+            · simp at h; rw [h, he]; decide
+          have hn3 : ∀ x ∈ t3 :: (rest ++ [e]), x.ty ≠ .ILLEGAL := by
+            intro x hx
+            rcases List.mem_cons.mp hx with h | h
+            · rw [h, ty3]; decide
+            · exact hnill x h
+          have hn2 : ∀ x ∈ t2 :: t3 :: (rest ++ [e]), x.ty ≠ .ILLEGAL := by
+            intro x hx
+            rcases List.mem_cons.mp hx with h | h
+            · rw [h, ty2]; decide
+            · exact hn3 x h
+          obtain ⟨stmts, h1, h2⟩ := parseLoop_witems r rest e (acc ++ [Stmt.expr t2 (.str t2 c)]) (g + 1 + 1 + 1) hkr he
+            (by simp [wspec] at hf; omega)
+          refine ⟨Stmt.expr t2 (.str t2 c) :: stmts, ?_, by simp [specOf, wspec, h2]⟩
+          have nx1 : ({ toks := t1 :: t2 :: t3 :: (rest ++ [e]) } : PS).next = { toks := t2 :: t3 :: (rest ++ [e]) } :=
+            ps_next_clean t1 t2 _ hn2
+          have nx2 : ({ toks := t2 :: t3 :: (rest ++ [e]) } : PS).next = { toks := t3 :: (rest ++ [e]) } :=
+            ps_next_clean t2 t3 _ hn3
+          have nx3 : ({ toks := t3 :: (rest ++ [e]) } : PS).next = { toks := rest ++ [e] } := by
+            cases hr : rest ++ [e] with
+            | nil => simp at hr
+            | cons t4 r4 =>
+              have := ps_next_clean t3 t4 r4 (by rw [← hr]; exact hnill)
+              simpa [hr] using this
+          have hex : parseExpression (g + 1 + 1) LOWEST ({ toks := t2 :: t3 :: (rest ++ [e]) } : PS) =
+              (.str t2 c, { toks := t2 :: t3 :: (rest ++ [e]) }) := by
+            rw [parseExpression_succ]
+            have hp : prefixBody (parseExpression (g + 1)) (parseExprList (g + 1)) (parseObjLoop (g + 1))
+                ({ toks := t2 :: t3 :: (rest ++ [e]) } : PS) = some (.str t2 t2.lit, { toks := t2 :: t3 :: (rest ++ [e]) }) := by
+              unfold prefixBody
+              simp [PS.cur, ty2]
+            rw [hp]
+            simp only []
+            rw [prattLoop_succ]
+            have : ({ toks := t2 :: t3 :: (rest ++ [e]) } : PS).peekIs .RBRACES = true := by simp [PS.peekIs, PS.peek, ty3]
+            simp [this, lit2]
+          have hst : parseStatement (g + 1 + 1 + 1) ({ toks := t1 :: t2 :: t3 :: (rest ++ [e]) } : PS) =
+              (.expr t2 (.str t2 c), { toks := t3 :: (rest ++ [e]) }) := by
+            show statementBody (parseExpression (g + 1 + 1)) (parseExprList (g + 1 + 1)) (parseBody (g + 1 + 1)) (parseIfTail (g + 1 + 1))
+              (parseSlots (g + 1 + 1)) ({ toks := t1 :: t2 :: t3 :: (rest ++ [e]) } : PS) = _
+            have hc : ({ toks := t1 :: t2 :: t3 :: (rest ++ [e]) } : PS).cur.ty = .LBRACES := by simp [PS.cur, ty1]
+            unfold statementBody
+            simp only [hc]
+            unfold parseEmbeddedCode
+            simp only [nx1]
+            have c1 : ({ toks := t2 :: t3 :: (rest ++ [e]) } : PS).curIs .RBRACES = false := by simp [PS.curIs, PS.cur, ty2]
+            have c2 : ({ toks := t2 :: t3 :: (rest ++ [e]) } : PS).peekIs .ASSIGN = false := by simp [PS.peekIs, PS.peek, ty3]
+            have c3 : ({ toks := t2 :: t3 :: (rest ++ [e]) } : PS).peekIs .RBRACES = true := by simp [PS.peekIs, PS.peek, ty3]
+            simp only [c1, c2, Bool.and_false, Bool.false_eq_true, if_false, hex, c3, if_true, nx2]
+            simp [PS.cur]
+          rw [parseProgramLoop]
+          have c0 : ({ toks := t1 :: t2 :: t3 :: (rest ++ [e]) } : PS).curIs .EOF = false := by simp [PS.curIs, PS.cur, ty1]
+          have i3 : ({ toks := t3 :: (rest ++ [e]) } : PS).curIs .ILLEGAL = false := by simp [PS.curIs, PS.cur, ty3]
+          simp only [List.cons_append] at c0 hst ⊢
+          simp only [c0, Bool.false_eq_true, if_false, hst, i3, Stmt.isBad, nx3]
+          rw [h1]
+          simp
   | .ifelse g1 n g2 th el :: r, toks, e, acc, f, hk, he, hf => by
     obtain ⟨g, rfl⟩ : ∃ g, f = g + 6 := ⟨f - 6, by simp [wspec] at hf; omega⟩
     cases el with
@@ -1089,6 +1200,7 @@ def wbound (env : Env) : List WSpec → Prop
   | [] => True
   | .text _ :: r => wbound env r
   | .hole n :: r => (env.get n).isSome = true ∧ wbound env r
+  | .slit _ :: r => wbound env r
   | .cond n _ _ :: r => (env.get n).isSome = true ∧ wbound env r
 
 /-- the render: text as it is, a name by its printed value, a construct by the branch its name chooses -/
@@ -1096,12 +1208,14 @@ def wrender (env : Env) : List WSpec → Bytes
   | [] => []
   | .text t :: r => t ++ wrender env r
   | .hole n :: r => ((env.get n).map Val.toStr).getD [] ++ wrender env r
+  | .slit v :: r => literalValue v ++ wrender env r
   | .cond n th el :: r => (if ((env.get n).map isTruthy).getD false then th else el.getD []) ++ wrender env r
 
 instance (env : Env) : (l : List WSpec) → Decidable (wbound env l)
   | [] => isTrue trivial
   | .text _ :: r => by unfold wbound; exact instDecidableWbound env r
   | .hole _ :: r => by have := instDecidableWbound env r; unfold wbound; exact inferInstance
+  | .slit _ :: r => by unfold wbound; exact instDecidableWbound env r
   | .cond _ _ _ :: r => by have := instDecidableWbound env r; unfold wbound; exact inferInstance
 
 theorem evalBlock_one_text (c : Ctx) (env : Env) (t : Token) (f : Nat) :
@@ -1153,6 +1267,16 @@ theorem evalProg_wspec (c : Ctx) (env : Env) : ∀ (specs : List WSpec) (ss : Li
           simp only [evalExpr, hv, Res.bind_ok]
           rw [show f + 3 + 1 + 1 = f + 5 from rfl, this]
           simp [wrender, hv, List.append_assoc]
+        | str t2 v =>
+          simp only [specOf, Option.some.injEq] at hs1
+          subst hs1
+          have := ih rest (f + 5) (acc ++ literalValue v) hsr (by simpa [wbound] using hb) (by simp at hf; omega)
+          rw [show f + 5 = (f + 4) + 1 from rfl, evalStmt_succ]
+          simp only [stmtBody, calleesAt_expr]
+          rw [show f + 4 = (f + 3) + 1 from rfl]
+          simp only [evalExpr, Res.bind_ok, Val.toStr]
+          rw [show f + 3 + 1 + 1 = f + 5 from rfl, this]
+          simp [wrender, List.append_assoc]
         | _ => simp [specOf] at hs1
       | ifS t cnd cons alts alt =>
         -- only the two shapes have a specification
@@ -1251,6 +1375,9 @@ theorem wfuel_le_src : ∀ (items : List WItem), WItemsOK items → wfuel items 
   | .print g1 n g2 :: r, hok => by
     have := wfuel_le_src r hok.2.2.2
     simp [witemsSrc, WItem.src, wfuel]; omega
+  | .lit g1 q c g2 :: r, hok => by
+    have := wfuel_le_src r hok.2.2.2.2
+    simp [witemsSrc, WItem.src, wfuel]; omega
   | .ifelse g1 n g2 th el :: r, hok => by
     have := wfuel_le_src r hok.2.2.2.2.2.2.2
     simp [witemsSrc, WItem.src, wfuel, kwIf, kwEnd]; omega
@@ -1286,6 +1413,7 @@ theorem wspec_length_le : ∀ items : List WItem, (wspec items).length ≤ (wkey
   | .text _ :: r => by have := wspec_length_le r; simp [wkeys, wspec]; omega
   | .comment _ :: r => by have := wspec_length_le r; simp [wkeys, wspec]; omega
   | .print _ _ _ :: r => by have := wspec_length_le r; simp [wkeys, wspec]; omega
+  | .lit _ _ _ _ :: r => by have := wspec_length_le r; simp [wkeys, wspec]; omega
   | .ifelse _ _ _ _ _ :: r => by have := wspec_length_le r; simp [wkeys, wspec]; omega
 
 theorem parse_witems (items : List WItem) (hok : WItemsOK items) :
